@@ -21,6 +21,9 @@ def run(ctx):
         started = [x for x in tr if x["ev"] == "start" and x["w"] == w]
         if started and started[0]["filt"]:
             ctx.violation("filtered-watch/%s" % r["what"], "ring %s: %s at line %d: %s" % (r["config"], r["what"], r["line"], r["detail"]), r)
+    # filtered subscribers on real threads (bursts consumed as one batch by a lagging watcher: update / destroy / re-create /
+    # update of one id with the match flipping in between), judged at the collection's linearization points
+    watchlib.threaded(ctx, "C14", 120 if quick else 2500)
     # binding self-test
     import copy
     t2 = copy.deepcopy([x for x in recs if x["kind"] == "label" and x["matched"]][:1])
